@@ -522,16 +522,71 @@ def _r4_pref_mix(rep, f, g, s):
         ok = r1.get(nm) == idx
         rep.ob("R4", ok, "%s / %s: `%s` is read from the same offsets on both sides" % (f.name, g.name, nm), func=f, node=f.node,
                construct="%s at %s vs rhs %s" % (nm, idx, r1.get(nm)), detail="" if ok else "offsets of %s differ: %s vs %s" % (nm, idx, r1.get(nm)))
-    # derivative vector: [dR] then (dtheta_k, dphiR_k) in the same sorted order
-    t = ast.unparse(g.node).replace(" ", "")
-    ok = "returnval=[gamma*I]" in t and "returnval.extend([dthetak_dt,dphiRk_dt])" in t and \
-        t.count("sorted(Pk.keys())") == 2
-    rep.ob("R4", ok, "%s: derivative vector is [dR] + [dtheta_k, dphiR_k]* over sorted degrees, as it is read" % g.name, func=g, node=g.node,
-           construct="pref_mix derivative assembly", detail="" if ok else "assembly of the derivative vector changed")
-    t2 = ast.unparse(f.node).replace(" ", "")
-    ok = "IC=[0]" in t2 and "IC.extend([1,0])" in t2 and "forkinsorted(Pk.keys())" in t2
-    rep.ob("R4", ok, "%s: initial vector is [R0=0] + [theta=1, phiR=0]* over sorted degrees" % f.name, func=f, node=f.node,
-           construct="pref_mix initial assembly", detail="" if ok else "assembly of the initial vector changed")
+    # layout: 1 leading slot (R) then one (theta_k, phiR_k) pair per degree, degrees in ONE deterministic order on both sides
+    def order_of(fn, e, depth=0):
+        if isinstance(e, ast.Call) and _k(e.func) == "enumerate" and e.args:
+            return order_of(fn, e.args[0], depth)
+        if isinstance(e, ast.Name) and depth < 4:
+            vals = _env_of(fn).get(e.id, [])
+            if len(vals) == 1:
+                return order_of(fn, vals[0], depth + 1)
+            return "other"
+        if isinstance(e, ast.Call) and _k(e.func) == "sorted" and e.args and "Pk" in names_in(e.args[0]):
+            return "sorted"
+        if "Pk" in names_in(e):
+            return "dict order"
+        return "other"
+
+    def layout_loops(fn, vec_names, build_names):
+        out = []
+        for n in own_nodes(fn.node):
+            if not isinstance(n, ast.For):
+                continue
+            reads = any(isinstance(x, ast.Subscript) and isinstance(x.ctx, ast.Load) and _k(x.value) in vec_names for x in ast.walk(n))
+            builds = [x for x in ast.walk(n) if isinstance(x, ast.Call) and isinstance(x.func, ast.Attribute)
+                      and x.func.attr in ("extend", "append") and _k(x.func.value) in build_names]
+            if reads or builds:
+                out.append((n, builds))
+        return out
+
+    rets = [x for x in own_nodes(g.node) if isinstance(x, ast.Return)]
+    built_g = set()
+    for r in rets:
+        built_g |= names_in(r.value)
+    built_g &= {n.targets[0].id for n in own_nodes(g.node) if isinstance(n, ast.Assign) and isinstance(n.targets[0], ast.Name)
+                and isinstance(n.value, ast.List)}
+    ic = s.node.args[1] if len(s.node.args) > 1 else None
+    built_f = {ic.id} if isinstance(ic, ast.Name) else set()
+    loops = [(g, l, b) for l, b in layout_loops(g, {g.params[0]}, built_g)] + \
+            [(f, l, b) for l, b in layout_loops(f, {"%s.T" % out, out or ""}, built_f)]
+    rep.floor("R4", "layout loops of the preferential-mixing EBCM (unpack, derivative, initial vector, read-back)", len(loops), 4)
+    rep.rule("R4o", "every loop that fixes the position of a degree class in the packed state vector (build, unpack, derivative, "
+                    "read-back) runs over the degrees in one and the same order (all sorted, or all the order of the same dict)")
+    orders = [order_of(fn, l.iter) for fn, l, b in loops]
+    ref_order = None
+    for (fn, l, b), o in zip(loops, orders):
+        if fn is f and b:
+            ref_order = o            # the loop that builds the initial vector fixes the layout
+    for (fn, l, b), o in zip(loops, orders):
+        ok = o == ref_order and o in ("sorted", "dict order")
+        rep.ob("R4o", ok, "%s: the loop that lays out / reads the state vector runs over the degrees in the order the initial vector was built in" % fn.name,
+               func=fn, node=l, construct="layout loop over %s: %s (initial vector: %s)" % (short(l.iter, 40), o, ref_order),
+               detail="" if ok else "the vector layout follows %s of Pk here while the initial vector is built over %s: components are "
+               "attributed to the wrong degree class whenever the two orders differ" % (o, ref_order))
+    # shape of the vector: one leading component, then pairs (theta, phiR)
+    for fn, names, what in ((g, built_g, "derivative"), (f, built_f, "initial")):
+        inits = [n for n in own_nodes(fn.node) if isinstance(n, ast.Assign) and isinstance(n.targets[0], ast.Name)
+                 and n.targets[0].id in names and isinstance(n.value, ast.List)]
+        exts = [x for x in own_nodes(fn.node) if isinstance(x, ast.Call) and isinstance(x.func, ast.Attribute)
+                and x.func.attr == "extend" and _k(x.func.value) in names]
+        ok = len(inits) == 1 and len(inits[0].value.elts) == 1 and len(exts) == 1 and exts[0].args \
+            and isinstance(exts[0].args[0], (ast.List, ast.Tuple)) and len(exts[0].args[0].elts) == 2
+        if ok and fn is g:
+            a, b2 = exts[0].args[0].elts
+            ok = "theta" in _k(a) and "phiR" in _k(b2)
+        rep.ob("R4", ok, "%s: %s vector is one leading component then a (theta_k, phiR_k) pair per degree, as it is read" % (fn.name, what),
+               func=fn, node=exts[0] if exts else fn.node, construct="pref_mix %s assembly" % what,
+               detail="" if ok else "assembly of the %s vector no longer matches the offsets 1+2*index / 2+2*index used to read it" % what)
 
 
 # ---------------------------------------------------------------------------
